@@ -47,7 +47,7 @@ func runC05(c *ctx, r *Report) error {
 	if !c.quick {
 		nShapes = 6000
 	}
-	r.Rule = fmt.Sprintf("%d random workflow shapes: 1–5 jobs with a random needs DAG (incl. transitive chains, so that indirect dependencies exist), 0–5 steps per job with ids at random places, declared job outputs, matrices with literal rows / include keys / expression rows / expression include / expression matrix, workflow_call and/or workflow_dispatch with inputs and secrets (or neither); after EVERY step position and at job outputs / environment url a probe step references every candidate name (defined, undefined, differently cased) of steps.<id>, needs.<job>[.outputs.<name>], matrix.<key>, inputs.<name>, secrets.<name>, and jobs.<job>.outputs.<name> in workflow_call outputs; the real linter must report 'is not defined' at a probe iff the generator's scope rules (written from the property text) say the entity is out of scope; non-trivial = distinct probes", nShapes)
+	r.Rule = fmt.Sprintf("%d random workflow shapes: 1–5 jobs with a random needs DAG (incl. transitive chains, so that indirect dependencies exist), 0–5 steps per job with ids at random places, declared job outputs, matrices with literal rows / include keys / expression rows / expression include / expression matrix, workflow_call and/or workflow_dispatch with inputs and secrets (or neither); inside every step at name / if / env / continue-on-error / timeout-minutes / working-directory (own id and others), after EVERY step position and at job outputs / environment url a probe step references every candidate name (defined, undefined, differently cased) of steps.<id>, needs.<job>[.outputs.<name>], matrix.<key>, inputs.<name>, secrets.<name>, and jobs.<job>.outputs.<name> in workflow_call outputs; the real linter must report 'is not defined' at a probe iff the generator's scope rules (written from the property text) say the entity is out of scope; non-trivial = distinct probes", nShapes)
 	stepIDs := []string{"alpha", "beta", "gamma"}
 	outNames := []string{"o1", "o2"}
 	matrixKeys := []string{"os", "ver", "extra"}
@@ -312,6 +312,40 @@ func runC05(c *ctx, r *Report) error {
 				} else {
 					b.add("      - id: " + randCase(rng, id))
 					b.add("        run: echo")
+				}
+				// probes inside the step itself, at every other key that is evaluated: the step's own id is not yet
+				// in scope there, earlier ids are
+				for pos := 0; pos < 6; pos++ {
+					cand := stepIDs[rng.Intn(len(stepIDs))]
+					if id != "" && rng.Intn(2) == 0 {
+						cand = id
+					}
+					expr := "steps." + randCase(rng, cand) + ".outputs.x"
+					var ln int
+					switch pos {
+					case 0:
+						ln = b.add("        name: ${{ " + expr + " }}")
+					case 1:
+						ln = b.add("        if: " + expr + " == 'a'")
+					case 2:
+						b.add("        env:")
+						ln = b.add("          P: ${{ " + expr + " }}")
+					case 3:
+						expr = "fromJSON(" + expr + ")"
+						ln = b.add("        continue-on-error: ${{ " + expr + " }}")
+					case 4:
+						expr = "fromJSON(" + expr + ")"
+						ln = b.add("        timeout-minutes: ${{ " + expr + " }}")
+					default:
+						ln = b.add("        working-directory: ${{ " + expr + " }}")
+					}
+					what := "steps.<id> inside a step (" + []string{"name", "if", "env", "continue-on-error", "timeout-minutes", "working-directory"}[pos] + ")"
+					if cand == id {
+						what += " own id"
+					}
+					b.probes = append(b.probes, c05Probe{ln, expr, cand, !visible[cand], what})
+				}
+				if id != "" {
 					visible[id] = true
 				}
 				probeAll()
@@ -347,5 +381,18 @@ func runC05(c *ctx, r *Report) error {
 			r.sample(map[string]interface{}{"jobs": nJobs, "probes": len(b.probes), "workflow_call": hasCall, "workflow_dispatch": hasDispatch})
 		}
 	}
-	return nil
+	// tie of the sema model the C05 theorems are about. strict_scope_exact / nested_scope_exact / open_scope_silent
+	// say that the model reports "not defined" exactly for names outside the scope object; where the real checker's
+	// "not defined" reports differ from the model's on the same typing environment, it departs from that rule.
+	nTie := 4000
+	if !c.quick {
+		nTie = 60000
+	}
+	return semaTie(c, r, nTie, nil, nil, func(cs Case) (string, string) {
+		names := []string{"prop-undefined", "filter-prop-undefined", "undefined-variable"}
+		if a, b := semaCodes(cs.Impl, names...), semaCodes(cs.Model, names...); a != b {
+			return "undefined-reports-differ-from-scope-rule", "the checker's 'not defined' reports (" + a + ") differ from the proved scope rule (" + b + ")"
+		}
+		return "", ""
+	})
 }
